@@ -65,13 +65,13 @@ type SliceVal struct {
 }
 
 type PtrVal struct {
-	Obj  *Obj
-	Path []int // field path inside a cell
-	Idx  *Term // element index inside a region (nil if not)
-	Nil  *Term // Bool: pointer is nil
-	Glob string
-	ArrT *types.Array // pointer to a local array held as a region
-	InArr bool        // element of a byte array held as a Bytes value inside a cell (Idx is the element index)
+	Obj   *Obj
+	Path  []int // field path inside a cell
+	Idx   *Term // element index inside a region (nil if not)
+	Nil   *Term // Bool: pointer is nil
+	Glob  string
+	ArrT  *types.Array // pointer to a local array held as a region
+	InArr bool         // element of a byte array held as a Bytes value inside a cell (Idx is the element index)
 }
 
 type StructVal struct {
@@ -404,6 +404,20 @@ func (x *Exec) freshMapContent(st *State, m *types.Map, name string) *MapContent
 
 // zero value of a type
 func (x *Exec) zeroValue(st *State, t types.Type) Value {
+	if mf := modelFields(t); mf != nil {
+		sv := &StructVal{Typ: t}
+		for _, f := range mf {
+			switch f.Sort {
+			case SBytes:
+				sv.Fields = append(sv.Fields, TEps)
+			case SBool:
+				sv.Fields = append(sv.Fields, TFalse)
+			default:
+				sv.Fields = append(sv.Fields, IntLit(0))
+			}
+		}
+		return sv
+	}
 	switch u := under(t).(type) {
 	case *types.Basic:
 		switch {
